@@ -537,7 +537,11 @@ impl<'a> G<'a> {
         if self.open_iters.is_empty() || (self.open_iters.len() < 3 && self.r.chance(1, 3)) {
             let slot = (0..8u8).find(|s| !self.open_iters.contains(s)).unwrap();
             self.open_iters.push(slot);
-            let src = if !self.open_views.is_empty() && self.r.chance(1, 3) {
+            let src = if !self.open_txs.is_empty() && self.r.chance(1, 3) {
+                // an iterator of a write transaction: frozen like any other, also against the
+                // transaction's own later writes
+                IterSrc::Tx(*self.r.pick(&self.open_txs))
+            } else if !self.open_views.is_empty() && self.r.chance(1, 3) {
                 IterSrc::View(*self.r.pick(&self.open_views))
             } else {
                 IterSrc::Keyspace
@@ -574,6 +578,7 @@ impl<'a> G<'a> {
             },
         }];
         let n = self.r.range(1, 6);
+        let mut tx_iters: Vec<u8> = vec![];
         for _ in 0..n {
             let k = if self.r.chance(1, 4) { self.live_ks().unwrap_or(ks) } else { ks };
             let top = self.tx_op(k, 2);
@@ -587,6 +592,20 @@ impl<'a> G<'a> {
                 self.write_count[*ks as usize][*key as usize] += 2;
             }
             ops.push(Op::TxOp { slot, op: top });
+            // an iterator of the transaction itself, consumed while the transaction goes on
+            // writing (it stays frozen at its creation, also against the transaction's own writes)
+            if self.r.chance(1, 4) {
+                let mine: Vec<u8> = tx_iters.clone();
+                if mine.is_empty() && self.open_iters.len() < 6 {
+                    let islot = (0..8u8).find(|s| !self.open_iters.contains(s)).unwrap();
+                    self.open_iters.push(islot);
+                    tx_iters.push(islot);
+                    let range = if self.r.chance(1, 2) { RangeSpec::All } else { self.range() };
+                    ops.push(Op::IterOpen { slot: islot, src: IterSrc::Tx(slot), ks: k, range });
+                } else if let Some(islot) = mine.first() {
+                    ops.push(Op::IterStep { slot: *islot, n: self.r.range(1, 2) as u8, back: self.r.chance(1, 3) });
+                }
+            }
         }
         ops.push(Op::TxEnd {
             slot,
